@@ -123,7 +123,7 @@ theorem append_realloc {α} (k : Kind) (zero : α) (A : Arrays α) (s : Hdr) (va
             (moveCells (view A s ++ List.replicate (calculateNewCapacity (s.len + vals.length) s.cap - s.len) zero) vals s.len 0 vals.length),
         hdr := { arr := A.length, off := 0, len := s.len + vals.length,
                  cap := calculateNewCapacity (s.len + vals.length) s.cap, isNil := false },
-        reusedElemObjects := k == .spine && decide (s.len > 0) } := by
+        reusedElemObjects := false } := by
   obtain ⟨h1, h2⟩ := hwf
   have hn : vals.length ≠ 0 := by omega
   have hcap := calculateNewCapacity_ge (s.len + vals.length) s.cap
@@ -219,21 +219,15 @@ theorem append_spec' {α} (k : Kind) (zero : α) (A : Arrays α) (s : Hdr) (vals
         exact ⟨rfl, rfl, getArr_set_same _ _ _ harr, fun id hid => getArr_set_other _ _ _ _ hid⟩
       · intro h; exact absurd rfl h
 
-/-- struct/array element objects are shared between the old and the new backing array exactly when a
-    non-empty slice of such elements is reallocated (`array.slice` is shallow, prelude.js:494) -/
+/-- after the repair no `append` shares element objects between the old and the new backing array -/
 theorem append_reused {α} (k : Kind) (zero : α) (A : Arrays α) (s : Hdr) (vals : List α) (hwf : s.wf A) :
-    (append k zero A s vals).reusedElemObjects = true ↔
-      (k = .spine ∧ s.len > 0 ∧ s.len + vals.length > s.cap) := by
+    (append k zero A s vals).reusedElemObjects = false := by
   by_cases hbig : s.len + vals.length > s.cap
   · rw [append_realloc k zero A s vals hwf hbig]
-    cases k <;> simp [hbig]
   · by_cases hn : vals.length = 0
     · have hv : vals = [] := List.eq_nil_of_length_eq_zero hn
       subst hv
       simp [append, internalAppend]
-      intro _ _
-      exact hwf.1
     · rw [append_inplace k zero A s vals hwf hn hbig]
-      simp [hbig]
 
 end GV.Slice
